@@ -1359,7 +1359,8 @@ PBT_REGRESSION(large_response_then_close)
   ConnPlan cp;
   cp.mss = 536; // a peer behind a small-MTU path: the kernel send buffer holds ~70 KiB
   cp.readDelayMs = 1000; // ... that starts reading late: the close is queued while most of the response waits in user space
-  cp.items.push_back(get("big", "/e/a", beh(SetContent, 200, 300 * 1024, 0), true));
+  cp.rcvbuf = 16384; // ... with a small receive buffer: both kernel buffers together hold far less than the response
+  cp.items.push_back(get("big", "/e/a", beh(SetContent, 200, 2 * 1024 * 1024, 0), true));
   p.conns.push_back(cp);
   labelAndRun(p, c);
 }
